@@ -18,3 +18,10 @@ for v in run.violations[:6]:
     print("  exp", str(v["expected"])[:400])
     print("  act", str(v["actual"])[:400])
     print("  ", check.human_case(v["case_text"])[:12])
+# differences in the stored representation only (record 11 of the span-terminal engine)
+for v in getattr(run, "corr_broken", [])[:6]:
+    print("CORRESPONDENCE", v["what"], v["case"])
+    print("  exp", str(v["expected"])[:400])
+    print("  act", str(v["actual"])[:400])
+    print("  ", check.human_case(v["case_text"])[:12])
+print("violations", len(run.violations), "representation-only differences", len(getattr(run, "corr_broken", [])))
